@@ -216,6 +216,10 @@ func E2E(args []string) error {
 					p.Spec.Template.Labels = map[string]string{"edit": fmt.Sprint(p.Generation)}
 				})
 				err = s.healthRec()
+			case "ResetNC":
+				nc := world.NodeClass()
+				w.EnvMutate(nc, "EditNodeClass", func() { nc.Generation++ })
+				err = s.healthRec()
 			case "Restart":
 				s.restart()
 			case "HydrateT", "HydrateF":
